@@ -129,7 +129,7 @@ def register(claim, not_yet):
           'Lean 4 decide +kernel over source-translated tables (exhaustive) + loader/file correspondence + reference comparison', 'DESIGN.md §4 C18')
     claim('C19',
           'Proved: a 2-D correlation with an outer-product kernel factors into nested 1-D correlations for every kernel/image size and stride; the non-separable kernel is the outer product of '
-          'the reversed filters; the inner sum is the separable row pass; MODE ZERO, ANALYSIS: the four sub-bands of the model of afb2d_nonsep (two-axis zero padding with the odd extra row / column, one strided 2-D correlation per band) equal the row pass followed by the column pass of the separable bank with the reversed filters, and hence the outputs of the model of AFB2D.forward, for every image size and all filter lengths >= 2 (C19N.afb2d_nonsep_zero_eq_sep, afb2d_nonsep_zero_eq_AFB2D). The other modes (padding/fold commutation) and the synthesis side are decided by the exact correspondence of afb2d_nonsep/sfb2d_nonsep/'
+          'the reversed filters; the inner sum is the separable row pass; MODE ZERO, ANALYSIS: the four sub-bands of the model of afb2d_nonsep (two-axis zero padding with the odd extra row / column, one strided 2-D correlation per band) equal the row pass followed by the column pass of the separable bank with the reversed filters, and hence the outputs of the model of AFB2D.forward, for every image size and all filter lengths >= 2 (C19N.afb2d_nonsep_zero_eq_sep, afb2d_nonsep_zero_eq_AFB2D). MODE ZERO, SYNTHESIS: the model of sfb2d_nonsep (four 2-D transposed convolutions with outer-product kernels, one crop) equals the separable column-then-row synthesis, i.e. the output of the model of SFB2D.forward, for every band size and filter lengths that fit (C19S.sfb2d_nonsep_zero_eq_sep, sfb2d_nonsep_zero_eq_SFB2D). The other modes (padding/fold commutation) are decided by the exact correspondence of afb2d_nonsep/sfb2d_nonsep/'
           'afb2d/sfb2d (images smaller than the filter, odd filters, overlapping in-place folds) and by nonsep == separable on the real code.' + TIE + BRK,
           'Lean 4 factorisation theorems + exact correspondence + nonsep-vs-separable oracle', 'DESIGN.md §4 C19')
     claim('C08',
